@@ -111,7 +111,18 @@ pub fn quant_strategy(reluctant: bool, counted_max: u32) -> BoxedStrategy<(u32, 
     (bounds, greedy).prop_map(|((min, max, brace), g)| (min, max, g, brace)).boxed()
 }
 
+/// top-level pattern strategy: mostly a sequence of 2-4 recursive nodes, so that trivial one-leaf patterns are rare
 pub fn node_strategy(cfg: &GenCfg) -> BoxedStrategy<Node> {
+    let inner = inner_node_strategy(cfg);
+    prop_oneof![
+        2 => inner.clone(),
+        5 => prop::collection::vec(inner.clone(), 2..5).prop_map(Node::Cat),
+        1 => prop::collection::vec(inner, 2..4).prop_map(Node::Alt),
+    ]
+    .boxed()
+}
+
+pub fn inner_node_strategy(cfg: &GenCfg) -> BoxedStrategy<Node> {
     let mut leaves: Vec<(u32, BoxedStrategy<Node>)> = vec![];
     leaves.push((cfg.w_lit.max(1), prop::sample::select(cfg.lits.clone()).prop_map(Node::Lit).boxed()));
     if cfg.w_dot > 0 {
